@@ -25,6 +25,29 @@ def count_theorems(path):
             for m in re.finditer(r'^\s*(Theorem|Lemma|Corollary)\s+([A-Za-z0-9_\']+)', src, re.M)]
 
 
+def pv_closure(props_v):
+    """Logical names (PV.Dir.File) of the property's theorem file and every PV file it transitively requires."""
+    deps = {}
+    try:
+        for line in open(os.path.join(C.COQ, '.Makefile.d')):
+            if ':' not in line:
+                continue
+            lhs, rhs = line.split(':', 1)
+            tgt = [t for t in lhs.split() if t.endswith('.vo')]
+            if tgt:
+                deps[tgt[0]] = [d for d in rhs.split() if d.endswith('.vo')]
+    except OSError:
+        pass
+    seen, todo = [], [props_v[:-2] + '.vo']
+    while todo:
+        t = todo.pop()
+        if t in seen:
+            continue
+        seen.append(t)
+        todo.extend(deps.get(t, []))
+    return ['PV.' + t[:-3].replace('/', '.') for t in seen]
+
+
 def prove(ctx, mod):
     """Build the property's theorem file; return dict describing the result."""
     props_v = os.path.join(C.COQ, mod.PROPS_V)
@@ -125,11 +148,20 @@ def main():
             import subprocess
             t0 = time.time()
             logical = 'PV.' + mod.PROPS_V[:-2].replace('/', '.')
+            mode = getattr(mod, 'COQCHK', 'full')
+            if mode == 'norec':
+                # closures resting on Reals/Flocq/Coquelicot/Interval take tens of minutes to re-check in full:
+                # re-check every PV module of the closure (and print the axioms) but take the installed libraries as compiled
+                mods = pv_closure(mod.PROPS_V)
+                cmd = ['timeout', '1500', 'coqchk', '-silent', '-o', '-R', C.COQ, 'PV']
+                for m_ in mods:
+                    cmd += ['-norec', m_]
+            else:
+                cmd = ['timeout', '1500', 'coqchk', '-silent', '-o', '-R', C.COQ, 'PV', logical]
             with C.Lock(os.path.join(C.COQ, '.lock-coqchk')):
-                p = subprocess.run(['timeout', '1500', 'coqchk', '-silent', '-o', '-R', C.COQ, 'PV', logical],
-                                   stdout=subprocess.PIPE, stderr=subprocess.STDOUT, text=True)
+                p = subprocess.run(cmd, stdout=subprocess.PIPE, stderr=subprocess.STDOUT, text=True)
             tail = p.stdout[-3000:]
-            stages['coqchk'] = {'rc': p.returncode, 'seconds': round(time.time() - t0, 1), 'output_tail': tail}
+            stages['coqchk'] = {'mode': mode, 'rc': p.returncode, 'seconds': round(time.time() - t0, 1), 'output_tail': tail}
             if p.returncode != 0:
                 ctx.violation('coqchk-failed', 'coqchk rejected the compiled closure of %s' % mod.PROPS_V,
                               {'kind': 'broken-proof', 'item': 'coqchk ' + logical, 'output_tail': tail}, False)
